@@ -2,8 +2,10 @@
 nested serialisable fields and a registered third-party type."""
 from __future__ import annotations
 
+import abc
 import collections
 import decimal
+import enum
 import fractions
 import uuid
 from dataclasses import dataclass, field
@@ -91,9 +93,58 @@ class StaticNode(Node0):
         return StaticNode(name=data["name"], payload=from_json(data["payload"]), friends=from_json(data["friends"]))
 
 
+class AbstractNode(SubclassJSONSerializer, abc.ABC):
+    """a serialisable class that cannot be instantiated"""
+
+    @abc.abstractmethod
+    def shape(self):
+        ...
+
+    @classmethod
+    def _from_json(cls, data, **kwargs):
+        return cls()
+
+
 class NoneFromJson(SubclassJSONSerializer):
     """a serialisable class whose _from_json is not callable"""
     _from_json = None
+
+
+class Point(collections.namedtuple("Point", ["x", "y"])):
+    """a registered named tuple: a tuple by inheritance, an object of its own by registration"""
+
+
+class Level(enum.IntEnum):
+    """a registered IntEnum: an int by inheritance"""
+    LOW = 1
+    HIGH = 2
+
+
+class Name(str, SubclassJSONSerializer):
+    """a str subclass that is serialisable"""
+
+    def to_json(self):
+        return {**super().to_json(), "text": str(self)}
+
+    @classmethod
+    def _from_json(cls, data, **kwargs):
+        return cls(data["text"])
+
+
+def _ser_point(obj):
+    return {JSON_TYPE_NAME: _tag(Point), "x": obj.x, "y": obj.y}
+
+
+def _deser_point(data, **kwargs):
+    return Point(data["x"], data["y"])
+
+
+def _ser_level(obj):
+    return {JSON_TYPE_NAME: _tag(Level), "value": int(obj)}
+
+
+def _deser_level(data, **kwargs):
+    return Level(data["value"])
 
 
 def _ser_deque(obj):
@@ -223,3 +274,5 @@ def register():
     reg.register(EntityId, _ser_entity_id, _deser_entity_id)   # uuid.UUID itself is registered by krrood at import
     reg.register(fractions.Fraction, _ser_fraction, _deser_fraction)
     reg.register(collections.deque, _ser_deque, _deser_deque)  # an iterable registered type
+    reg.register(Point, _ser_point, _deser_point)              # registered types that derive from builtins
+    reg.register(Level, _ser_level, _deser_level)
